@@ -136,6 +136,7 @@ Definition dec_eop (s : sx) : eop :=
   | 1 => ERemoveExisting (sx_nats (sx_nth s 1)) (sx_N (sx_nth s 2))
   | 2 => EAdd (sx_nats (sx_nth s 1)) (sx_N (sx_nth s 2))
   | 3 => EBackendPut (sx_nat (sx_nth s 1))
+  | 5 => EGfc (sx_nat (sx_nth s 1)) (sx_Z (sx_nth s 2))
   | _ => EBackendDel (sx_nat (sx_nth s 1))
   end.
 
@@ -179,6 +180,14 @@ Definition mon_ec_step (size : nat) (dur : N) (o : eop) (recs : list (nat * N)) 
       ((if forallb (justified dur recs t1) cached then [] else [11]) ++
        (if Nat.ltb size (length cached) then [13] else []), recs)
   | EAdd ds _ => ([], map (fun d => (d, t1)) (dedup_sort ds) ++ recs)
+  | EGfc p fault =>
+      let asked := sx_nats (sx_nth (sx_nth ob 2) 0) in
+      (* 16: a composite read through the decorator is not the backend's answer for that parent
+             (no backend failure: the child iff the backend holds the parent, else NOT_FOUND;
+              a backend failure: an error) *)
+      ((if list_eqb asked [p] &&
+           (if Z.eqb fault 0 then Z.eqb code (if memn p bk then 0 else 5) else negb (Z.eqb code 0))
+        then [] else [16]), recs)
   | _ => ([], recs)
   end.
 
